@@ -1290,4 +1290,3 @@ package mq
 //@ func NewPublish
 //@   inline
 //@   ensures result != nil && fresh(result) && (result.fixed & 240) == 48                   #C02
-
